@@ -2431,4 +2431,195 @@ theorem walk_uncov (fl : Flags) (inp : Inp) (hud : inp.userDefines = []) : ∀ t
         · left; intro he; exact h ((emit_condElse_rest _ hrT hrE).mp he)
         · exact Or.inr h
 
+/-! ## `reach`: the regions that some configuration consistent with -D / -U contains -/
+
+theorem holds_of_positive {k : Kind} (h : k.positive = true) (d : Str → Bool) (m : Str) : k.holds d m = d m := by
+  cases k <;> simp [Kind.positive] at h <;> rfl
+theorem holds_of_negative {k : Kind} (h : k.positive = false) (d : Str → Bool) (m : Str) : k.holds d m = !d m := by
+  cases k <;> simp [Kind.positive] at h <;> rfl
+
+/-- assignments that agree with the forced macros -/
+def Agrees (d : Str → Bool) (pos neg : List Str) : Prop := (∀ x ∈ pos, d x = true) ∧ (∀ x ∈ neg, d x = false)
+
+theorem agrees_cons_pos {d : Str → Bool} {pos neg : List Str} {m : Str} (h : Agrees d pos neg) (hm : d m = true) :
+    Agrees d (m :: pos) neg := by
+  refine ⟨fun x hx => ?_, h.2⟩
+  rcases List.mem_cons.mp hx with h' | h'
+  · rw [h']; exact hm
+  · exact h.1 x h'
+
+theorem agrees_cons_neg {d : Str → Bool} {pos neg : List Str} {m : Str} (h : Agrees d pos neg) (hm : d m = false) :
+    Agrees d pos (m :: neg) := by
+  refine ⟨h.1, fun x hx => ?_⟩
+  rcases List.mem_cons.mp hx with h' | h'
+  · rw [h']; exact hm
+  · exact h.2 x h'
+
+theorem not_contains_of_agrees_neg {d : Str → Bool} {pos neg : List Str} {m : Str} (ha : Agrees d pos neg) (hm : d m = true) :
+    neg.contains m = false := by
+  cases hc : neg.contains m with
+  | false => rfl
+  | true => have := ha.2 m (List.contains_iff_mem.mp hc); rw [hm] at this; exact absurd this (by simp)
+
+theorem not_contains_of_agrees_pos {d : Str → Bool} {pos neg : List Str} {m : Str} (ha : Agrees d pos neg) (hm : d m = false) :
+    pos.contains m = false := by
+  cases hc : pos.contains m with
+  | false => rfl
+  | true => have := ha.1 m (List.contains_iff_mem.mp hc); rw [hm] at this; exact absurd this (by simp)
+
+/-- then-part of `reach` -/
+def reachThen (k : Kind) (m : Str) (t : Items) (pos neg : List Str) : List Nat :=
+  if k.positive then (if neg.contains m then [] else t.reach (m :: pos) neg)
+  else (if pos.contains m then [] else t.reach pos (m :: neg))
+def reachElse (k : Kind) (m : Str) (e : Items) (pos neg : List Str) : List Nat :=
+  if k.positive then (if pos.contains m then [] else e.reach pos (m :: neg))
+  else (if neg.contains m then [] else e.reach (m :: pos) neg)
+
+theorem reach_cond (k : Kind) (m : Str) (t rest : Items) (pos neg : List Str) :
+    (Items.cond k m t rest).reach pos neg = reachThen k m t pos neg ++ rest.reach pos neg := rfl
+theorem reach_condElse (k : Kind) (m : Str) (t e rest : Items) (pos neg : List Str) :
+    (Items.condElse k m t e rest).reach pos neg = reachThen k m t pos neg ++ reachElse k m e pos neg ++ rest.reach pos neg := rfl
+
+theorem then_complete {d : Str → Bool} {k : Kind} {m : Str} {t : Items} {pos neg : List Str} {r : Nat}
+    (ih : ∀ pos neg, Agrees d pos neg → r ∈ t.emit d → r ∈ t.reach pos neg)
+    (ha : Agrees d pos neg) (hh : k.holds d m = true) (h : r ∈ t.emit d) : r ∈ reachThen k m t pos neg := by
+  unfold reachThen
+  cases hk : k.positive with
+  | true =>
+    rw [holds_of_positive hk] at hh
+    simp only [if_true, not_contains_of_agrees_neg ha hh, Bool.false_eq_true, if_false]
+    exact ih _ _ (agrees_cons_pos ha hh) h
+  | false =>
+    rw [holds_of_negative hk] at hh
+    have hm : d m = false := by simpa using hh
+    simp only [Bool.false_eq_true, if_false, not_contains_of_agrees_pos ha hm]
+    exact ih _ _ (agrees_cons_neg ha hm) h
+
+theorem else_complete {d : Str → Bool} {k : Kind} {m : Str} {e : Items} {pos neg : List Str} {r : Nat}
+    (ih : ∀ pos neg, Agrees d pos neg → r ∈ e.emit d → r ∈ e.reach pos neg)
+    (ha : Agrees d pos neg) (hh : k.holds d m = false) (h : r ∈ e.emit d) : r ∈ reachElse k m e pos neg := by
+  unfold reachElse
+  cases hk : k.positive with
+  | true =>
+    rw [holds_of_positive hk] at hh
+    simp only [if_true, not_contains_of_agrees_pos ha hh, Bool.false_eq_true, if_false]
+    exact ih _ _ (agrees_cons_neg ha hh) h
+  | false =>
+    rw [holds_of_negative hk] at hh
+    have hm : d m = true := by simpa using hh
+    simp only [Bool.false_eq_true, if_false, not_contains_of_agrees_neg ha hm]
+    exact ih _ _ (agrees_cons_pos ha hm) h
+
+/-- completeness of `reach`: whatever a consistent assignment emits is reachable -/
+theorem reach_complete (d : Str → Bool) : ∀ (t : Items) (r : Nat) (pos neg : List Str), Agrees d pos neg →
+    r ∈ t.emit d → r ∈ t.reach pos neg
+  | .done, _, _, _, _, h => by simp [Items.emit] at h
+  | .region r0 rest, r, pos, neg, ha, h => by
+    simp only [Items.emit, List.mem_cons] at h
+    simp only [Items.reach, List.mem_cons]
+    exact h.imp id (reach_complete d rest r pos neg ha)
+  | .cond k m t rest, r, pos, neg, ha, h => by
+    simp only [Items.emit, List.mem_append] at h
+    rw [reach_cond, List.mem_append]
+    rcases h with h | h
+    · split at h
+      · next hh => exact Or.inl (then_complete (reach_complete d t r) ha hh h)
+      · simp at h
+    · exact Or.inr (reach_complete d rest r pos neg ha h)
+  | .condElse k m t e rest, r, pos, neg, ha, h => by
+    simp only [Items.emit, List.mem_append] at h
+    rw [reach_condElse, List.mem_append, List.mem_append]
+    rcases h with h | h
+    · split at h
+      · next hh => exact Or.inl (Or.inl (then_complete (reach_complete d t r) ha hh h))
+      · next hh => exact Or.inl (Or.inr (else_complete (reach_complete d e r) ha (by simpa using hh) h))
+    · exact Or.inr (reach_complete d rest r pos neg ha h)
+
+/-- soundness of `reach`: a reachable region is emitted by the assignment "exactly the macros forced on the way" -/
+theorem reach_sound : ∀ (t : Items) (r : Nat) (pos neg : List Str), (∀ x ∈ pos, x ∉ neg) → r ∈ t.reach pos neg →
+    ∃ d : Str → Bool, Agrees d pos neg ∧ r ∈ t.emit d
+  | .done, _, _, _, _, h => by simp [Items.reach] at h
+  | .region r0 rest, r, pos, neg, hc, h => by
+    simp only [Items.reach, List.mem_cons] at h
+    rcases h with h | h
+    · refine ⟨fun x => pos.contains x, ⟨fun x hx => by simpa using hx, fun x hx => ?_⟩, by simp [Items.emit, h]⟩
+      cases hp : pos.contains x with
+      | false => exact hp
+      | true => exact absurd hx (hc x (List.contains_iff_mem.mp hp))
+    · obtain ⟨d, ha, he⟩ := reach_sound rest r pos neg hc h
+      exact ⟨d, ha, by simp [Items.emit, he]⟩
+  | .cond k m t rest, r, pos, neg, hc, h => by
+    rw [reach_cond, List.mem_append] at h
+    rcases h with h | h
+    · obtain ⟨d, ha, hh, he⟩ := then_sound (fun pos neg => reach_sound t r pos neg) hc h
+      exact ⟨d, ha, by simp [Items.emit, hh, he]⟩
+    · obtain ⟨d, ha, he⟩ := reach_sound rest r pos neg hc h
+      exact ⟨d, ha, by simp [Items.emit, he]⟩
+  | .condElse k m t e rest, r, pos, neg, hc, h => by
+    rw [reach_condElse, List.mem_append, List.mem_append] at h
+    rcases h with (h | h) | h
+    · obtain ⟨d, ha, hh, he⟩ := then_sound (fun pos neg => reach_sound t r pos neg) hc h
+      exact ⟨d, ha, by simp [Items.emit, hh, he]⟩
+    · obtain ⟨d, ha, hh, he⟩ := else_sound (fun pos neg => reach_sound e r pos neg) hc h
+      exact ⟨d, ha, by simp [Items.emit, hh, he]⟩
+    · obtain ⟨d, ha, he⟩ := reach_sound rest r pos neg hc h
+      exact ⟨d, ha, by simp [Items.emit, he]⟩
+where
+  then_sound {k : Kind} {m : Str} {t : Items} {pos neg : List Str} {r : Nat}
+      (ih : ∀ pos neg, (∀ x ∈ pos, x ∉ neg) → r ∈ t.reach pos neg → ∃ d : Str → Bool, Agrees d pos neg ∧ r ∈ t.emit d)
+      (hc : ∀ x ∈ pos, x ∉ neg) (h : r ∈ reachThen k m t pos neg) :
+      ∃ d : Str → Bool, Agrees d pos neg ∧ k.holds d m = true ∧ r ∈ t.emit d := by
+    unfold reachThen at h
+    cases hk : k.positive with
+    | true =>
+      simp only [hk, if_true] at h
+      split at h
+      · simp at h
+      · next hn =>
+        have hn' : m ∉ neg := by simpa using hn
+        obtain ⟨d, ha, he⟩ := ih (m :: pos) neg (by
+          intro x hx; rcases List.mem_cons.mp hx with h' | h'
+          · rw [h']; exact hn'
+          · exact hc x h') h
+        exact ⟨d, ⟨fun x hx => ha.1 x (List.mem_cons_of_mem _ hx), ha.2⟩, by rw [holds_of_positive hk]; exact ha.1 m (by simp), he⟩
+    | false =>
+      simp only [hk, Bool.false_eq_true, if_false] at h
+      split at h
+      · simp at h
+      · next hn =>
+        have hn' : m ∉ pos := by simpa using hn
+        obtain ⟨d, ha, he⟩ := ih pos (m :: neg) (by
+          intro x hx hmem; rcases List.mem_cons.mp hmem with h' | h'
+          · rw [h'] at hx; exact hn' hx
+          · exact hc x hx h') h
+        exact ⟨d, ⟨ha.1, fun x hx => ha.2 x (List.mem_cons_of_mem _ hx)⟩, by rw [holds_of_negative hk]; simp [ha.2 m (by simp)], he⟩
+  else_sound {k : Kind} {m : Str} {e : Items} {pos neg : List Str} {r : Nat}
+      (ih : ∀ pos neg, (∀ x ∈ pos, x ∉ neg) → r ∈ e.reach pos neg → ∃ d : Str → Bool, Agrees d pos neg ∧ r ∈ e.emit d)
+      (hc : ∀ x ∈ pos, x ∉ neg) (h : r ∈ reachElse k m e pos neg) :
+      ∃ d : Str → Bool, Agrees d pos neg ∧ k.holds d m = false ∧ r ∈ e.emit d := by
+    unfold reachElse at h
+    cases hk : k.positive with
+    | true =>
+      simp only [hk, if_true] at h
+      split at h
+      · simp at h
+      · next hn =>
+        have hn' : m ∉ pos := by simpa using hn
+        obtain ⟨d, ha, he⟩ := ih pos (m :: neg) (by
+          intro x hx hmem; rcases List.mem_cons.mp hmem with h' | h'
+          · rw [h'] at hx; exact hn' hx
+          · exact hc x hx h') h
+        exact ⟨d, ⟨ha.1, fun x hx => ha.2 x (List.mem_cons_of_mem _ hx)⟩, by rw [holds_of_positive hk]; exact ha.2 m (by simp), he⟩
+    | false =>
+      simp only [hk, Bool.false_eq_true, if_false] at h
+      split at h
+      · simp at h
+      · next hn =>
+        have hn' : m ∉ neg := by simpa using hn
+        obtain ⟨d, ha, he⟩ := ih (m :: pos) neg (by
+          intro x hx; rcases List.mem_cons.mp hx with h' | h'
+          · rw [h']; exact hn'
+          · exact hc x h') h
+        exact ⟨d, ⟨fun x hx => ha.1 x (List.mem_cons_of_mem _ hx), ha.2⟩, by rw [holds_of_negative hk]; simp [ha.1 m (by simp)], he⟩
+
 end Cppcheck.Configs
